@@ -13,13 +13,21 @@ def coq_settings(L, A, ns, s):
     return f"(G {C.cnatlist(L)} {C.cnatlist(A)} {nsq} {int(s)})"
 
 
-def run_gqr(B, opt, L, A, N, s):
-    """real GQR with a trace; returns (pivots, steps)"""
+_shared = {}
+
+
+def run_gqr(B, opt, L, A, N, s, reuse=False):
+    """real GQR with a trace; returns (pivots, steps).  With reuse=True one long-lived GQR object serves every call (all settings are
+    passed on every call, so it must behave like a fresh optimizer: a refit leaves no trace of the earlier option)"""
     from pysensors.optimizers import GQR
     steps = []
     with gqr_trace.trace_gqr(steps):
-        g = GQR()
-        kws = {}
+        if reuse:
+            g = _shared.setdefault("gqr", GQR())
+            kws = dict(constraint_option="")
+        else:
+            g = GQR()
+            kws = {}
         if opt != "":
             kws = dict(idx_constrained=np.array(L, dtype=int), n_sensors=N, n_const_sensors=s, all_sensors=np.array(A, dtype=int), constraint_option=opt)
         piv = impl.quiet(g.fit, B.copy(), **kws).get_sensors()
